@@ -139,22 +139,26 @@ class Driver:
 class Xrl:
     """one library variant + a pool of driver processes."""
 
-    def __init__(self, variant="plain", cfg="A", nproc=None, locale=None, build=None, env=None):
+    def __init__(self, variant="plain", cfg="A", nproc=None, locale=None, build=None, env=None, sections=False):
         self.B = build or _build.Build()
         self.variant, self.cfg = variant, cfg
         gen = os.path.join(self.B.dir, "fntab.c")
-        self.sigs = gen_fntab(gen + ".tmp")
-        if not os.path.exists(gen) or open(gen).read() != open(gen + ".tmp").read():
-            os.replace(gen + ".tmp", gen)
-        else:
-            os.unlink(gen + ".tmp")
+        with self.B._lock():
+            tmp = gen + ".tmp%d" % os.getpid()
+            self.sigs = gen_fntab(tmp)
+            if not os.path.exists(gen) or open(gen).read() != open(tmp).read():
+                os.replace(tmp, gen)
+            else:
+                os.unlink(tmp)
         extra = ["-no-pie"]
         if variant == "plain":
             extra += ["-DXDRV_TRACK"]
         if variant == "asan":
             extra += ["-DXDRV_SAN"]
         h = os.path.join(VERIF, "harness")
-        self.exe = self.B.exe("xdrv", [os.path.join(h, "xdrv.c"), os.path.join(h, "ops.c"), gen], variant, cfg, extra=extra)
+        if sections:
+            extra += ["-DXDRV_SECTIONS"]
+        self.exe = self.B.exe("xdrv", [os.path.join(h, "xdrv.c"), os.path.join(h, "ops.c"), gen], variant, cfg, extra=extra, renamed=sections)
         self.env = dict(env or {})
         if locale:
             ld = self.B.locale_dir()
